@@ -1261,13 +1261,10 @@ Proof.
     rewrite E. cbn [fst s_obj]. split; [exact H1|split; [|split; [|exact H5]]].
     + intros Hf. rewrite H3. apply Hb. rewrite <- H2. exact Hf.
     + rewrite H4. destruct (o_file (s_obj s)); discriminate.
-  - assert (HI : RInv w s) by (repeat split; assumption). unfold RInv in HI.
-    destruct (o_file (s_obj s)) eqn:Ef; [destruct keep|]; cbn [fst s_obj o_ns o_file o_nbytes o_raw o_warn];
-      try exact HI.
-    split; [exact Hs|split; [discriminate|split; [exact Hr|exact Hwn]]].
-  - assert (HI : RInv w s) by (repeat split; assumption). unfold RInv in HI.
-    destruct (o_file (s_obj s)) eqn:Ef; [|destruct keep]; cbn [fst s_obj];
-      try exact HI.
+  - destruct (o_file (s_obj s)) eqn:Ef; [destruct keep|]; cbn [fst s_obj o_ns o_file o_nbytes o_raw o_warn];
+      try (split; [exact Hs|split; [intros E; rewrite ?Ef in E; first [discriminate E|apply Hb; reflexivity]|split; [exact Hr|exact Hwn]]]).
+  - destruct (o_file (s_obj s)) eqn:Ef; destruct keep; cbn [fst s_obj];
+      try (split; [exact Hs|split; [intros E; rewrite ?Ef in E; first [discriminate E|apply Hb; reflexivity]|split; [exact Hr|exact Hwn]]]).
     unfold r_decompress_inplace.
     set (o1 := mkR DBin (fsize w DBin) (o_ns (s_obj s)) RawNone (o_warn (s_obj s))).
     assert (I1 : o_ns o1 = w_n w /\ (o_file o1 = DBin -> o_nbytes o1 = fsize w DBin) /\
@@ -1277,8 +1274,7 @@ Proof.
       as [o2 [E [H1 [H2 [H3 [H4 H5]]]]]].
     destruct (o_raw (s_obj s)); cbn [fst]; try exact I1; rewrite E; cbn [fst];
       (split; [exact H1|split; [intros _; rewrite H3; reflexivity|split; [rewrite H4; discriminate|exact H5]]]).
-  - assert (HI : RInv w s) by (repeat split; assumption). unfold RInv in HI.
-    destruct (o_file (s_obj s)); cbn [fst]; exact HI.
+  - destruct (o_file (s_obj s)) eqn:Ef; cbn [fst]; (split; [exact Hs|split; [intros E; rewrite ?Ef in E; first [discriminate E|apply Hb; reflexivity]|split; [exact Hr|exact Hwn]]]).
 Qed.
 
 Lemma r_start_inv w f : RInv w (r_start w f (w_n w)).
